@@ -433,7 +433,11 @@ impl StdBroker {
                             AMQPFrame::Method(chan, Basic(basic::AMQPMethod::GetOk(basic::GetOk { delivery_tag: a as u64, redelivered: false, exchange: "gx".into(), routing_key: "gk".into(), message_count: b }))),
                             AMQPFrame::Header(chan, 60, Box::new(AMQPContentHeader { class_id: 60, weight: 0, body_size: body.len() as u64, properties: Default::default() })),
                         ];
-                        if !body.is_empty() {
+                        // (a body of more than four bytes goes out in two frames)
+                        if body.len() > 4 {
+                            v.push(AMQPFrame::Body(chan, body[..3].to_vec()));
+                            v.push(AMQPFrame::Body(chan, body[3..].to_vec()));
+                        } else if !body.is_empty() {
                             v.push(AMQPFrame::Body(chan, body));
                         }
                         Some(v)
